@@ -218,7 +218,7 @@ fc_find_exact(const fc_file *f, uint16_t tag, uint16_t ref)
  *   compress: int16 3, uint16 version, int32 length, uint16 comp_ref, uint16 model, uint16 coder, coder parameters
  *   chunked : int16 5, int32 header_len, uint8 version, int32 flag, int32 elem_tot_len, int32 chunk_size, int32 nt_size,
  *             uint16 tbl_tag, uint16 tbl_ref, uint16 sp_tag, uint16 sp_ref, int32 ndims, ndims x (int32 flag, dim_len, chunk_len),
- *             int32 fill_len, fill bytes, [int16 comp special tag, int32 header len, comp header] */
+ *             int32 fill_len, fill bytes, [int16 comp special tag, int32 header len, uint16 model, uint16 coder, parameters] */
 int
 fc_special_info(fc_file *f, const fc_dd *d, fc_special *s)
 {
@@ -316,11 +316,11 @@ fc_special_info(fc_file *f, const fc_dd *d, fc_special *s)
             p += s->fill_len;
             s->logical_len *= s->nt_size;
             if (s->chunk_flag & 1) { /* compressed chunks: int16 sp tag, int32 len, comp header (version, len, ref, model, coder...) */
-                if (end - p < 6 + 12)
+                if (end - p < 6 + 4)
                     return -1;
-                p += 6;
-                s->model_type = be16(p + 8);
-                s->coder_type = be16(p + 10);
+                p += 6; /* the header that follows is (uint16 model, uint16 coder, coder parameters) */
+                s->model_type    = be16(p);
+                s->coder_type    = be16(p + 2);
                 s->chk_comp_type = s->coder_type;
             }
             return 0;
